@@ -18,7 +18,7 @@ import ast
 import z3
 
 from pyvc import cx, ob
-from .cxutil import clause, canary, generic_for_loops
+from .cxutil import clause, canary, generic_for_loops, UNRECOGNISED
 from .c04 import PROP, COARSENED
 
 COMP = {0: ('fx', (1, 2)), 1: ('fy', (0, 2)), 2: ('fz', (0, 1))}
@@ -139,6 +139,8 @@ def task_prolongation(sc):
             mine = [m for m in ws if m['store'] is st['e'].fields[comp].store]
             if len(mine) != len(ws):
                 return False                      # something else than the fine component is written
+            if any(_write_key(m) is None or not (cx.is_sym(_write_key(m)[d]) or isinstance(_write_key(m)[d], int)) for m in mine):
+                return UNRECOGNISED('the fine component is not written one index at a time along the edge direction')
             want_idx = [2 * I, 2 * I + 1] if coars[d] else [I]
             if len(mine) != len(want_idx):
                 return False
